@@ -715,6 +715,23 @@ func init() {
 				}
 			}
 			fmt.Fprintf(&b, "Definition close_guarded : bool := %v.\n", guarded && sets)
+			// ... and WHERE it sets it: `vx.closed = true` as a statement of Close's body that
+			// precedes the statement calling vx.Suspend().  Only then does a Close that overlaps
+			// the one in flight (signal / panic path waiting in Suspend) see the flag.
+			early := false
+			for _, s := range fd.Body.List {
+				if es, ok := s.(*ast.ExprStmt); ok {
+					if c, ok := es.X.(*ast.CallExpr); ok && mdIsPath(c.Fun, "Suspend") {
+						break
+					}
+				}
+				if as, ok := s.(*ast.AssignStmt); ok && len(as.Lhs) == 1 && mdIsPath(as.Lhs[0], "closed") {
+					if id, ok := as.Rhs[0].(*ast.Ident); ok && id.Name == "true" {
+						early = true
+					}
+				}
+			}
+			fmt.Fprintf(&b, "Definition close_flag_early : bool := %v.\n", guarded && early)
 		}
 		return b.String()
 	})
